@@ -551,11 +551,11 @@ Section Cells.
 
   (* the transformation part of FILL / the parameters of TRCL, starred or not:
      thirteen entries whose last one is not 1 *)
-  Lemma inline_m_rejected star trs (ps rest : list (tok (T:=T))) :
-    forallb numeric_lead ps = true -> forallb (fun p => float_lit (tsp p)) ps = true ->
+  Lemma inline_m_rejected isfill star trs (ps rest : list (tok (T:=T))) :
+    forallb numeric_lead ps = true -> forallb (fun p => num_lit (tsp p)) ps = true ->
     stops rest -> List.length ps = 13%nat ->
     seqb S (last (map tval ps) (s1 S)) (s1 S) = false ->
-    fill_params S star trs (ps ++ rest) = Err ETransformation.
+    fill_params S isfill star trs (ps ++ rest) = Err ETransformation.
   Proof.
     intros Hn Hf Hs Hl Hm. unfold fill_params.
     rewrite (span_app _ ps rest Hn Hs). rewrite Hf. simpl negb. cbv iota.
@@ -568,7 +568,7 @@ Section Cells.
   Qed.
 
   Lemma trcl_m_rejected star trs (ps rest : list (tok (T:=T))) :
-    forallb numeric_lead ps = true -> forallb (fun p => float_lit (tsp p)) ps = true ->
+    forallb numeric_lead ps = true -> forallb (fun p => num_lit (tsp p)) ps = true ->
     stops rest -> List.length ps = 13%nat ->
     seqb S (last (map tval ps) (s1 S)) (s1 S) = false ->
     parse_trcl S star trs (ps ++ rest) = Err ETransformation.
@@ -576,20 +576,20 @@ Section Cells.
 
   Lemma fill_m_rejected star trs (u : tok (T:=T)) (ps rest : list (tok (T:=T))) :
     has_colon u = false -> float_lit (tsp u) = true ->
-    forallb numeric_lead ps = true -> forallb (fun p => float_lit (tsp p)) ps = true ->
+    forallb numeric_lead ps = true -> forallb (fun p => num_lit (tsp p)) ps = true ->
     stops rest -> List.length ps = 13%nat ->
     seqb S (last (map tval ps) (s1 S)) (s1 S) = false ->
     parse_fill S star trs (u :: ps ++ rest) = Err ETransformation.
   Proof.
     intros Hc Hu Hn Hf Hs Hl Hm. unfold parse_fill. rewrite Hc, Hu.
-    rewrite (inline_m_rejected star trs ps rest Hn Hf Hs Hl Hm). reflexivity.
+    rewrite (inline_m_rejected true star trs ps rest Hn Hf Hs Hl Hm). reflexivity.
   Qed.
 
   (* the keyword loop: a TRCL / FILL keyword at the head of the options *)
   Lemma kw_trcl_m_rejected f trs (e : tok (T:=T)) ps rest k :
     prefix "imp" (tsp e) = false -> contains_sub "fill" (tsp e) = false ->
     contains_sub "lat" (tsp e) = false -> contains_sub "trcl" (tsp e) = true ->
-    forallb numeric_lead ps = true -> forallb (fun p => float_lit (tsp p)) ps = true ->
+    forallb numeric_lead ps = true -> forallb (fun p => num_lit (tsp p)) ps = true ->
     stops rest -> List.length ps = 13%nat ->
     seqb S (last (map tval ps) (s1 S)) (s1 S) = false ->
     parse_kw S (Datatypes.S f) trs (e :: ps ++ rest) k = Err ETransformation.
@@ -601,7 +601,7 @@ Section Cells.
   Lemma kw_fill_m_rejected f trs (e u : tok (T:=T)) ps rest k :
     prefix "imp" (tsp e) = false -> contains_sub "fill" (tsp e) = true ->
     has_colon u = false -> float_lit (tsp u) = true ->
-    forallb numeric_lead ps = true -> forallb (fun p => float_lit (tsp p)) ps = true ->
+    forallb numeric_lead ps = true -> forallb (fun p => num_lit (tsp p)) ps = true ->
     stops rest -> List.length ps = 13%nat ->
     seqb S (last (map tval ps) (s1 S)) (s1 S) = false ->
     parse_kw S (Datatypes.S f) trs (e :: u :: ps ++ rest) k = Err ETransformation.
@@ -643,7 +643,7 @@ Section Cells.
     destruct (Ascii.eqb ch "j").
     { destruct (reps (strip_ws (tsp t))); [|discriminate]. eauto. }
     destruct (Ascii.eqb ch "i" || Ascii.eqb ch "m" || Ascii.eqb ch "g"); [discriminate|].
-    destruct (float_lit (strip_ws (tsp t))); [eauto|discriminate].
+    destruct (num_lit (strip_ws (tsp t))); [eauto|discriminate].
   Qed.
 
   Lemma fill_array_length_exact star trs first r1 (fr : fillres) rest b :
@@ -665,7 +665,7 @@ Section Cells.
     exists ch, last_char (strip_ws (tsp t)) = Some ch /\
                Ascii.eqb ch "r" = false /\ Ascii.eqb ch "j" = false /\
                (Ascii.eqb ch "i" || Ascii.eqb ch "m" || Ascii.eqb ch "g") = false /\
-               float_lit (strip_ws (tsp t)) = true.
+               num_lit (strip_ws (tsp t)) = true.
 
   Lemma expand_short_rejected (nums : list (tok (T:=T))) e acc c :
     Forall plain nums -> (Z.of_nat (List.length acc + List.length nums) < e)%Z ->
@@ -835,7 +835,7 @@ Section CellRuns.
     In c (d_cells d) -> c_toks c = e :: ps ++ rest ->
     prefix "imp" (tsp e) = false -> contains_sub "fill" (tsp e) = false ->
     contains_sub "lat" (tsp e) = false -> contains_sub "trcl" (tsp e) = true ->
-    forallb numeric_lead ps = true -> forallb (fun p => float_lit (tsp p)) ps = true ->
+    forallb numeric_lead ps = true -> forallb (fun p => num_lit (tsp p)) ps = true ->
     stops rest -> List.length ps = 13%nat ->
     seqb S (last (map tval ps) (s1 S)) (s1 S) = false ->
     is_ok (validate S d) = false.
@@ -850,7 +850,7 @@ Section CellRuns.
     In c (d_cells d) -> c_toks c = e :: u :: ps ++ rest ->
     prefix "imp" (tsp e) = false -> contains_sub "fill" (tsp e) = true ->
     has_colon u = false -> float_lit (tsp u) = true ->
-    forallb numeric_lead ps = true -> forallb (fun p => float_lit (tsp p)) ps = true ->
+    forallb numeric_lead ps = true -> forallb (fun p => num_lit (tsp p)) ps = true ->
     stops rest -> List.length ps = 13%nat ->
     seqb S (last (map tval ps) (s1 S)) (s1 S) = false ->
     is_ok (validate S d) = false.
@@ -1089,7 +1089,7 @@ Section Prefix.
     In c (d_cells d) -> c_toks c = (pre ++ e :: ps ++ rest)%list -> skippable pre n ->
     prefix "imp" (tsp e) = false -> contains_sub "fill" (tsp e) = false ->
     contains_sub "lat" (tsp e) = false -> contains_sub "trcl" (tsp e) = true ->
-    forallb numeric_lead ps = true -> forallb (fun p => float_lit (tsp p)) ps = true ->
+    forallb numeric_lead ps = true -> forallb (fun p => num_lit (tsp p)) ps = true ->
     stops rest -> List.length ps = 13%nat ->
     seqb S (last (map tval ps) (s1 S)) (s1 S) = false ->
     is_ok (validate S d) = false.
@@ -1104,7 +1104,7 @@ Section Prefix.
     In c (d_cells d) -> c_toks c = (pre ++ e :: u :: ps ++ rest)%list -> skippable pre n ->
     prefix "imp" (tsp e) = false -> contains_sub "fill" (tsp e) = true ->
     has_colon u = false -> float_lit (tsp u) = true ->
-    forallb numeric_lead ps = true -> forallb (fun p => float_lit (tsp p)) ps = true ->
+    forallb numeric_lead ps = true -> forallb (fun p => num_lit (tsp p)) ps = true ->
     stops rest -> List.length ps = 13%nat ->
     seqb S (last (map tval ps) (s1 S)) (s1 S) = false ->
     is_ok (validate S d) = false.
